@@ -33,6 +33,7 @@ type ChanSpec struct {
 	Name    string
 	Elem    string // name bound to the sent value in Yields / FinalIf
 	Yields  []Clause
+	Sends   []Clause
 	FinalIf []Clause
 	Closes  bool
 	AtMost  int // 0 = unbounded
@@ -50,6 +51,8 @@ type chanProd struct {
 	// consumer-side tracking
 	drained    string               // formula: producer has finished sending
 	drainedBlk *ssa.BasicBlock
+	pre        *State // state when the goroutine was started: old(...) in its channel clauses
+	allocAt    string
 }
 
 // parseChanClause handles "chan <name> yields x: e | final_if x: e | closes | sends_at_most N".
@@ -74,7 +77,9 @@ func parseChanClause(cur *Contract, rest, where string) error {
 			return fmt.Errorf("sends_at_most needs a positive number")
 		}
 		cs.AtMost = n
-	case "yields", "final_if":
+	case "yields", "final_if", "sends":
+		// yields: checked at every send AND assumed at every receive
+		// sends:  checked at every send only (may mention the producer's locals)
 		i := strings.Index(r2, ":")
 		if i < 0 {
 			return fmt.Errorf("chan %s %s: expected '<name>: <expr>'", name, kw)
@@ -85,9 +90,12 @@ func parseChanClause(cur *Contract, rest, where string) error {
 			return err
 		}
 		cl := Clause{Expr: e, Src: strings.TrimSpace(r2[i+1:]), Line: where}
-		if kw == "yields" {
+		switch kw {
+		case "yields":
 			cs.Yields = append(cs.Yields, cl)
-		} else {
+		case "sends":
+			cs.Sends = append(cs.Sends, cl)
+		default:
 			cs.FinalIf = append(cs.FinalIf, cl)
 		}
 	default:
@@ -228,7 +236,7 @@ func (f *Frame) goStmt(x *ssa.Go, at string, st *State) {
 		if f.chans == nil {
 			f.chans = map[ssa.Value]*chanProd{}
 		}
-		f.chans[k] = &chanProd{key: k, fn: fn, con: con, spec: spec, names: names, pkg: fn.Pkg.Pkg, cap: f.capOf(k), label: name, drained: "false"}
+		f.chans[k] = &chanProd{key: k, fn: fn, con: con, spec: spec, names: names, pkg: fn.Pkg.Pkg, cap: f.capOf(k), label: name, drained: "false", pre: st.clone(), allocAt: st.alloc}
 	}
 	for i, p := range fn.Params {
 		if i < len(c.Args) && isChanType(p.Type()) {
@@ -263,7 +271,7 @@ func (f *Frame) goStmt(x *ssa.Go, at string, st *State) {
 
 // registerReturnedChan: after a call to a function that returns a channel it
 // created and handed to a goroutine, the caller becomes the consumer.
-func (f *Frame) registerReturnedChan(call ssa.Value, callee *ssa.Function, argNames map[string]*specBinding) {
+func (f *Frame) registerReturnedChan(call ssa.Value, callee *ssa.Function, argNames map[string]*specBinding, pre *State, allocAt string) {
 	vc := f.vc
 	if callee == nil || len(callee.Blocks) == 0 {
 		return
@@ -319,7 +327,7 @@ func (f *Frame) registerReturnedChan(call ssa.Value, callee *ssa.Function, argNa
 				if f.chans == nil {
 					f.chans = map[ssa.Value]*chanProd{}
 				}
-				f.chans[call] = &chanProd{key: call, fn: fn, con: con, spec: spec, names: names, pkg: fn.Pkg.Pkg, cap: capTerm, label: canonShort(callee) + "()", drained: "false"}
+				f.chans[call] = &chanProd{key: call, fn: fn, con: con, spec: spec, names: names, pkg: fn.Pkg.Pkg, cap: capTerm, label: canonShort(callee) + "()", drained: "false", pre: pre, allocAt: allocAt}
 				vc.usedAssumptions["goroutine "+canonName(fn)+": its writes are not visible to the consumer before a receive; interleavings are not modelled (producer/consumer rule)"] = true
 			}
 		}
@@ -375,6 +383,10 @@ func (f *Frame) receiveFrom(p *chanProd, elemT types.Type, in ssa.Instruction, a
 	vc.assume(at, vc.typeInv(v, elemT, st.alloc), "type invariant")
 	post := env.child()
 	post.cur = st
+	if p.pre != nil {
+		// old(...) in a channel clause: the state in which the goroutine started
+		post.pre, post.allocPre = p.pre, p.allocAt
+	}
 	post.names = map[string]*specBinding{}
 	for k, b := range p.names {
 		post.names[k] = b
@@ -387,7 +399,13 @@ func (f *Frame) receiveFrom(p *chanProd, elemT types.Type, in ssa.Instruction, a
 		if err != nil {
 			panic(unsupported{fmt.Sprintf("chan %s of %s: yields %s: %v", p.spec.Name, canonName(p.fn), cl.Src, err)})
 		}
-		vc.assume(at, implies(okT, t), "channel invariant of "+canonShort(p.fn)+"."+p.spec.Name)
+		if p.spec.Elem != "" && exprUsesName(cl.Expr, p.spec.Elem) {
+			vc.assume(at, implies(okT, t), "channel invariant of "+canonShort(p.fn)+"."+p.spec.Name)
+		} else {
+			// a clause about the state only: it also holds when the channel is seen
+			// closed (the producer establishes it at its returns as well)
+			vc.assume(at, t, "channel state invariant of "+canonShort(p.fn)+"."+p.spec.Name)
+		}
 	}
 	final := "false"
 	for _, cl := range p.spec.FinalIf {
@@ -549,7 +567,20 @@ func (f *Frame) sendStmt(x *ssa.Send, at string, st *State) {
 		names[spec.Elem] = &specBinding{V: vc.sv(v, elemT)}
 	}
 	env := f.invEnv(names, st)
-	label := name + ":" + vc.P.srcText(x.Pos())
+	// sends are named by their ordinal among the function's send statements
+	k := 0
+	for _, b := range f.fn.Blocks {
+		for _, in := range b.Instrs {
+			if sd, ok := in.(*ssa.Send); ok {
+				if sd == x {
+					goto found
+				}
+				k++
+			}
+		}
+	}
+found:
+	label := fmt.Sprintf("%s@send%d", name, k)
 	for i, cl := range spec.Yields {
 		t, err := env.trBool(cl.Expr)
 		if err != nil {
@@ -557,6 +588,28 @@ func (f *Frame) sendStmt(x *ssa.Send, at string, st *State) {
 			continue
 		}
 		vc.oblige("chan/yields", fmt.Sprintf("%s#%d", label, i), at, t, vc.P.line(x.Pos()), cl.Src, vc.con.Serves)
+	}
+	if len(spec.Sends) > 0 {
+		// producer-only clauses may mention local variables in scope at the send
+		lnames := f.namesAt(x.Block(), names)
+		lenv := f.invEnv(lnames, st)
+		for i, cl := range spec.Sends {
+			t, err := lenv.trBool(cl.Expr)
+			if err != nil {
+				// a local the clause needs is not in scope at this send. For a clause
+				// "A ==> B" whose A is expressible, the send is fine if A is false;
+				// otherwise the clause cannot be established here.
+				goal := "false"
+				if cl.Expr.Op == "bin" && cl.Expr.Name == "==>" {
+					if a, aerr := lenv.trBool(cl.Expr.Args[0]); aerr == nil {
+						goal = not(a)
+					}
+				}
+				vc.oblige("chan/sends", fmt.Sprintf("%s#%d", label, i), at, goal, vc.P.line(x.Pos()), cl.Src+" (consequent not expressible at this send: "+err.Error()+")", vc.con.Serves)
+				continue
+			}
+			vc.oblige("chan/sends", fmt.Sprintf("%s#%d", label, i), at, t, vc.P.line(x.Pos()), cl.Src, vc.con.Serves)
+		}
 	}
 	final := "false"
 	for _, cl := range spec.FinalIf {
@@ -648,6 +701,20 @@ func (f *Frame) chanAtReturn(x *ssa.Return, at string, st *State) {
 	if con != nil {
 		for _, name := range sortedKeys(con.Chans) {
 			spec := con.Chans[name]
+			// state-only yields clauses are assumed by the consumer also when it sees
+			// the channel closed: they must hold at the producer's returns
+			for i, cl := range spec.Yields {
+				if spec.Elem != "" && exprUsesName(cl.Expr, spec.Elem) {
+					continue
+				}
+				env := f.invEnv(vc.topFrame.names, st)
+				t, err := env.trBool(cl.Expr)
+				if err != nil {
+					vc.specError(fmt.Sprintf("chan %s yields %s: %v", name, cl.Src, err), cl)
+					continue
+				}
+				vc.oblige("chan/yields", fmt.Sprintf("%s@%s#%d", name, ret, i), at, t, vc.P.line(x.Pos()), cl.Src, con.Serves)
+			}
 			if !spec.Closes {
 				continue
 			}
@@ -695,6 +762,22 @@ func (f *Frame) chanAtReturn(x *ssa.Return, at string, st *State) {
 	}
 }
 
+// exprUsesName reports whether an expression mentions the identifier.
+func exprUsesName(e *Expr, name string) bool {
+	if e == nil {
+		return false
+	}
+	if e.Op == "ident" && e.Name == name {
+		return true
+	}
+	for _, a := range e.Args {
+		if exprUsesName(a, name) {
+			return true
+		}
+	}
+	return false
+}
+
 // strand obligations belong to C11
 func routeStrand(props []string) []string {
 	for _, p := range props {
@@ -703,4 +786,64 @@ func routeStrand(props []string) []string {
 		}
 	}
 	return props
+}
+
+// namesAt resolves local variable names at a program point in block b: the value
+// of the last reference to the name in a block dominating b, and address-taken
+// locals allocated in a dominating block. (A name bound to another value than the
+// author meant cannot make a proof unsound: the clause is checked for that value.)
+func (f *Frame) namesAt(b *ssa.BasicBlock, base map[string]*specBinding) map[string]*specBinding {
+	vc := f.vc
+	names := map[string]*specBinding{}
+	for k, v := range base {
+		names[k] = v
+	}
+	type lastRef struct {
+		d   *ssa.DebugRef
+		idx int
+	}
+	last := map[string]lastRef{}
+	for _, blk := range f.fn.Blocks {
+		if !blk.Dominates(b) {
+			continue
+		}
+		for idx, in := range blk.Instrs {
+			d, ok := in.(*ssa.DebugRef)
+			if !ok || d.IsAddr {
+				continue
+			}
+			id := identName(d)
+			if id == "" {
+				continue
+			}
+			l, seen := last[id]
+			if !seen || l.d.Block().Dominates(blk) && (l.d.Block() != blk || l.idx < idx) {
+				last[id] = lastRef{d, idx}
+			}
+		}
+	}
+	for n, l := range last {
+		if _, isParam := l.d.X.(*ssa.Parameter); isParam {
+			continue
+		}
+		if x, ok := f.env[l.d.X]; ok && x.T != "" {
+			if _, dup := names[n]; !dup {
+				names[n] = &specBinding{V: vc.sv(x.T, l.d.X.Type())}
+			}
+		} else if c, ok := l.d.X.(*ssa.Const); ok {
+			if _, dup := names[n]; !dup {
+				names[n] = &specBinding{V: vc.sv(vc.constTerm(c), c.Type())}
+			}
+		}
+	}
+	for _, blk := range f.fn.Blocks {
+		for _, in := range blk.Instrs {
+			if a, ok := in.(*ssa.Alloc); ok && a.Comment != "" && a.Block().Dominates(b) {
+				if x, ok := f.env[a]; ok && x.T != "" {
+					names[a.Comment] = &specBinding{V: vc.sv(x.T, a.Type()), Deref: true}
+				}
+			}
+		}
+	}
+	return names
 }
